@@ -95,6 +95,7 @@ class Track:
         self.loads = 0
         self.nf = 0                 # failed load attempts absorbed in the current step
         self.after_fault = False    # the previous access to this handle failed in load()
+        self.kept_taken_cached = False      # the kept static snapshot was taken while this handle was cached
 
 
 def absorb(sp, t, when):
@@ -125,7 +126,7 @@ def absorb(sp, t, when):
     return nl, nc
 
 
-def h_access(sp, L=3, n_handles=2, kinds=KINDS, faults=0):
+def h_access(sp, L=3, n_handles=2, kinds=KINDS, faults=0, retake=False):
     kind = sp.pick(list(kinds), 'kind')
     # load fault: the load attempt number `fail_at` (solver-chosen in 1..faults) of every handle raises once
     fail_at = sp.choose(faults, 'fail_at') + 1 if faults else 0
@@ -165,7 +166,10 @@ def h_access(sp, L=3, n_handles=2, kinds=KINDS, faults=0):
         t = tracks[ti]
         h = t.h
         acc = paths_for(h)
-        nops = len(acc) + 1 + (4 if loop is not None else 0)
+        nsw = 4 if loop is not None else 0
+        # retake: replace the kept static snapshot by one taken now (possibly while handles are cached);
+        # it concerns no particular handle, so it is offered once (with the first handle)
+        nops = len(acc) + 1 + nsw + (1 if retake and ti == 0 else 0)
         op = sp.choose(nops, 'op%d' % step)
         for u in tracks:
             sp.check(u.h.cached is u.cached, 'cached-flag',
@@ -213,6 +217,19 @@ def h_access(sp, L=3, n_handles=2, kinds=KINDS, faults=0):
                     sp.cover('reload-after-clear')
                 if 'static' in name:
                     sp.cover('static-access')
+                if name.startswith('static') and t.kept_taken_cached:
+                    sp.cover('kept-static-taken-while-cached')
+                    if not before:
+                        sp.cover('kept-static-reload-after-clear')
+            elif op == len(acc) + 1 + nsw:
+                sp.note('static = m.get_static_map()   (kept snapshot re-taken; cached: %s)' % (
+                    ', '.join('%r=%r' % (u.h, u.cached) for u in tracks)))
+                st = m.get_static_map()
+                sp.cover('retake')
+                for u in tracks:
+                    u.kept_taken_cached = u.cached
+                    if u.cached:
+                        sp.cover('retake-while-cached')
             elif op == len(acc):
                 sp.note('%s.clear()' % (h,))
                 h.clear()
@@ -276,13 +293,19 @@ HARNESSES = {
 _FAULT_REQ = ['load-fault', 'access-after-fault', 'static-access-after-fault', 'load-fault-after-clear',
               'cached-hit', 'reload-after-clear']
 
+_RETAKE_REQ = ['retake', 'retake-while-cached', 'kept-static-taken-while-cached', 'kept-static-reload-after-clear',
+               'cached-hit', 'reload-after-clear', 'static-access', 'clear-cached']
+
 TIERS = {
     'quick': [('access', dict(L=3, n_handles=2)),
-              ('access', dict(L=4, n_handles=1, kinds=['None', '[]'], faults=2), {'required': _FAULT_REQ}),
+              ('access', dict(L=4, n_handles=1, kinds=['None', '[]'], retake=True), {'required': _RETAKE_REQ}),
+              ('access', dict(L=4, n_handles=1, kinds=['[]'], faults=2), {'required': _FAULT_REQ}),
               ('access', dict(L=3, n_handles=1, kinds=['world'], faults=2),
                {'required': _FAULT_REQ[:2] + ['switch-load-fault']})],
-    'thorough': [('access', dict(L=5, n_handles=1)),
+    'thorough': [('access', dict(L=5, n_handles=1, retake=True),
+                  {'required': _RETAKE_REQ + ['switch', 'switch-clears', 'cached-hit-falsy']}),
                  ('access', dict(L=4, n_handles=2)),
+                 ('access', dict(L=4, n_handles=2, kinds=['[]'], retake=True), {'required': _RETAKE_REQ}),
                  ('access', dict(L=4, n_handles=1, faults=3), {'required': _FAULT_REQ + ['switch-load-fault']}),
                  ('access', dict(L=3, n_handles=2, faults=2), {'required': _FAULT_REQ + ['switch-load-fault']})],
 }
@@ -300,8 +323,9 @@ RULE = ('one evaluation = one feasible path of the decision tree (distinct histo
 BOUNDS = {
     'quick': 'value kinds None,0,\'\',[],object with raising __eq__/__bool__/__len__,7,World; 2 handles '
              '(k and a/k); 6-7 access paths per handle + clear (+4 switch variants for World); all histories of 3 ops; '
-             'load faults (load attempt 1 or 2 raises once): 1 handle, kinds None,[] with 4 ops, kind World with 3 ops',
-    'thorough': 'same kinds; 1 handle (a/k): all histories of 5 ops; 2 handles: all histories of 4 ops; load faults: '
+             'kept snapshot re-taken at any point: 1 handle, kinds None,[], 4 ops; load faults (load attempt 1 or 2 raises once): 1 handle, kind [] with 4 ops, kind World with 3 ops',
+    'thorough': 'same kinds; 1 handle (a/k): all histories of 5 ops incl. re-taking the kept snapshot; 2 handles: all '
+                'histories of 4 ops (kind [] also with re-take); load faults: '
                 'all kinds, 1 handle, attempt 1..3 raises, 4 ops; 2 handles, attempt 1..2, 3 ops',
 }
 ASSUMPTIONS = [
@@ -314,8 +338,9 @@ ASSUMPTIONS = [
     'loading a handle as a side effect of accessing a different one is accepted (the statement does not forbid it)',
     'for SimpleLoop.switch with a clear flag the statement does not say whether the clear applies; any number '
     'of clear() calls is accepted there and only the event-log rules are enforced (C13 owns the rest)',
-    'one static snapshot is taken before the history, further ones at access time (access path '
-    'm.get_static_map()...)',
+    'one static snapshot is taken before the history and kept, further ones at access time (access path '
+    'm.get_static_map()...); with retake=True an operation replaces the kept snapshot by one taken at that point '
+    'of the history (handles may be cached then); the oracle for accesses through it is unchanged',
 ]
 OUTSIDE = ['user subclasses overriding __call__ or clear without deferring to Handle',
            'concurrent access from several threads', 'histories longer than the bound']
